@@ -7,7 +7,7 @@ for d in ${@:-seeded/*}; do
   git -C /repo diff --quiet || { echo "/repo dirty"; exit 2; }
   git -C /repo apply /verif/$d/patch.diff || { echo "$n: patch failed"; continue; }
   caught=$(printf "%s\n" $PROPS | xargs -P 10 -I{} sh -c 'bin/cdlint -prop {} -repo /repo -evidence "" 2>&1 | grep -q "^VIOLATION" && echo {}' | sort | tr "\n" " ")
-  git -C /repo checkout -- .
+  git -C /repo checkout -- . && git -C /repo clean -fdq
   own=${n%-*}
   status=MISSED; [ -n "$caught" ] && status=caught-elsewhere; echo " $caught " | grep -q " $own " && status=CAUGHT
   echo "$n $status [$caught]"
